@@ -38,6 +38,12 @@ def with_inj(op, at, j):
 # two overlapping logins of ONE client: the first is parked before / after its response write while the second completes
 WITNESS_OVERLAP = [[[ACCEPT, 1], [ACCEPT, 2], with_inj([HANDSHAKE, 1, 0, 7, 1], at, [HANDSHAKE, 2, 0, 7, 1]), [HEARTBEAT, 2], [CLOSE, 1]] for at in (0, 1)] + \
                   [[[ACCEPT, 1], [ACCEPT, 2], [ACCEPT, 3], [HANDSHAKE, 3, 0, 7, 1], with_inj([HANDSHAKE, 2, 0, 7, 1], at, [HANDSHAKE, 1, 0, 7, 1]), [SWEEP]] for at in (0, 1)]
+# the base record of a connection is removed (CloseConnection by the stale sweep / a kick-then-close / the adapter) while a late
+# handshake of the same connection is between "base record fetched" and "control record registered" (interleaving point 9);
+# the final teardown of the connection must still remove the re-created control record
+WITNESS_LATE_REGISTER = [[[ACCEPT, 1], with_inj([HANDSHAKE, 1, 0, 7, 1], 9, [CLOSE, 1]), [HEARTBEAT, 1], [CLOSE, 1]],
+                         [[ACCEPT, 1], [ACCEPT, 2], [HANDSHAKE, 2, 0, 7, 1], with_inj([HANDSHAKE, 1, 0, 7, 1], 9, [CLOSE, 1]), [SWEEP], [CLOSE, 1]],
+                         [[ACCEPT, 1], [ACCEPT, 2], with_inj([HANDSHAKE, 1, 1, 7, 1], 9, [CLOSE, 2]), [HANDSHAKE, 1, 0, 7, 1], [CLOSE, 1]]]
 # a second record authenticated as the same client but not indexed (tunnel-type login) goes stale while the indexed one stays fresh
 WITNESS_SIBLING_SWEEP = [[ACCEPT, 1], [ACCEPT, 2], [ACCEPT, 3], [HANDSHAKE, 1, 0, 7, 1], [HANDSHAKE, 2, 0, 7, 0], [TICK, 3], [HEARTBEAT, 1], [SWEEP],
                          [HANDSHAKE, 3, 0, 7, 1]]
@@ -112,7 +118,10 @@ def rand_inj(rng, op, conns, clients):
     j = rng.choice([[CLOSE, c], [CLOSE, c], [CLOSE, rng.choice(others)], [KICK, x, rng.choice(conns)], [KICK, rng.choice(clients), c],
                     [SWEEP], [HANDSHAKE, rng.choice(others), 0, x, 1], [HANDSHAKE, rng.choice(others), 0, rng.choice(clients), 1],
                     [REMOVE, c]])
-    return with_inj(op, rng.randrange(HOSTS[op[0]]), j)
+    at = rng.randrange(HOSTS[op[0]])
+    if op[0] == HANDSHAKE and rng.random() < 0.25:
+        at = 9          # RemoteAddr(): between the base-record fetch and the registration of the control record
+    return with_inj(op, at, j)
 
 
 def gen_interleaved(rng, n, maxdepth):
@@ -378,6 +387,7 @@ def run(ctx, only_cases=None):
     probes += [{"cfg": CFG_CLOUD_FAIL, "ops": WITNESS_CLOUD_FAIL, "stream": "witness"}, {"cfg": CFG_CLOUD_FAIL, "ops": WITNESS_CLOUD_FAIL_SWEEP, "stream": "witness"},
                {"cfg": CFG0, "ops": WITNESS_PERSISTENT, "stream": "witness"}, {"cfg": CFG_CLOUD_FAIL, "ops": WITNESS_ADAPTER_ERR, "stream": "witness"},
                {"cfg": CFG0, "ops": WITNESS_CLAIM, "stream": "witness"}]
+    probes += [{"cfg": CFG0, "ops": w, "stream": "witness"} for w in WITNESS_LATE_REGISTER]
     probes += [{"cfg": CFG0, "ops": w, "stream": "witness"} for w in WITNESS_OVERLAP + [WITNESS_SIBLING_SWEEP, WITNESS_SIBLING_SWEEP2, WITNESS_REFUSED_DUP]]
     probes += [{"cfg": CFG_MAXCONN1, "ops": WITNESS_REFUSED_LIMIT, "stream": "witness"}]
     probes += [{"cfg": CFG_CAP2, "ops": w, "stream": "witness"} for w in (WITNESS_CAP_REREG_OLDEST, WITNESS_CAP_REREG_NEWEST,
